@@ -473,21 +473,33 @@ fn render_input(frame: &mut Frame<'_>, theme: &ThemeStyles, area: Rect, input: &
 }
 
 fn render_overlay(frame: &mut Frame<'_>, state: &TuiState, theme: &ThemeStyles, mode: RenderMode) {
-    let body = overlay_body_area(frame.area(), state.output_view);
+    if matches!(state.overlay, Overlay::None) {
+        return;
+    }
+    // A terminal shorter than the status bar or narrower than the modal margins leaves no room for an
+    // overlay: never hand a widget an area outside the frame (Clear indexes the buffer and panics).
+    let screen = frame.area();
+    let body = overlay_body_area(screen, state.output_view).intersection(screen);
+    let modal = overlay_modal_area(body).intersection(body);
+    let area = match &state.overlay {
+        Overlay::None | Overlay::Activity | Overlay::TaskList => body,
+        _ => modal,
+    };
+    if area.is_empty() {
+        return;
+    }
     match &state.overlay {
         Overlay::None => {}
-        Overlay::Activity => render_activity_overlay(frame, state, theme, body),
-        Overlay::TaskList => render_task_list_overlay(frame, state, theme, body),
+        Overlay::Activity => render_activity_overlay(frame, state, theme, area),
+        Overlay::TaskList => render_task_list_overlay(frame, state, theme, area),
         Overlay::ToolDetail { tool_id } => {
-            render_tool_detail_overlay(frame, state, theme, overlay_modal_area(body), tool_id, mode)
+            render_tool_detail_overlay(frame, state, theme, area, tool_id, mode)
         }
         Overlay::TaskDetail { task_id } => {
-            render_task_detail_overlay(frame, state, theme, overlay_modal_area(body), task_id)
+            render_task_detail_overlay(frame, state, theme, area, task_id)
         }
-        Overlay::ErrorDetail { seq } => {
-            render_error_overlay(frame, state, theme, overlay_modal_area(body), *seq)
-        }
-        Overlay::StallDetail => render_stall_overlay(frame, state, theme, overlay_modal_area(body)),
+        Overlay::ErrorDetail { seq } => render_error_overlay(frame, state, theme, area, *seq),
+        Overlay::StallDetail => render_stall_overlay(frame, state, theme, area),
     }
 }
 
